@@ -4217,11 +4217,13 @@ static gboolean priv_map_reply_to_relay_request (NiceAgent *agent, StunMessage *
               STUN_MESSAGE_RETURN_SUCCESS &&
               recv_realm != NULL && recv_realm_len > 0) {
 
-            if (code == STUN_ERROR_STALE_NONCE ||
+            if ((code == STUN_ERROR_STALE_NONCE ||
                 (code == STUN_ERROR_UNAUTHORIZED &&
                     !(recv_realm_len == sent_realm_len &&
                         sent_realm != NULL &&
-                        memcmp (sent_realm, recv_realm, sent_realm_len) == 0))) {
+                        memcmp (sent_realm, recv_realm, sent_realm_len) == 0))) &&
+                d->auth_retries < NICE_DISCOVERY_MAX_AUTH_RETRIES) {
+              d->auth_retries++;
               d->stun_resp_msg = *resp;
               memcpy (d->stun_resp_buffer, resp->buffer,
                   stun_message_length (resp));
